@@ -51,6 +51,22 @@ fn g4t(xs: array<T Tg>) -> string { Tg.tag(xs[0]) }\nfn g4a(xs: array<T Tg>) -> 
 fn g5t(pr: (T Tg, U Tg)) -> string {\n  match pr {\n    (a, b) -> Tg.tag(b)\n  }\n}\n\
 fn g5a(pr: (T Tg, U Tg)) -> string {\n  match pr {\n    (a, b) -> Tg.alt(b)\n  }\n}\n";
 
+/// Lambdas and tasks inside generic functions ({M} = method, {S} = suffix t/a).  Capture sets: only the
+/// generic value (h1), only a concrete value (h2), generic + concrete (h3, h7 with an int), generic +
+/// concrete through a nested lambda (h4), a lambda whose own type mentions the type parameter and
+/// that captures a concrete value (h5) / a concrete and a generic value (h8), a task with generic +
+/// concrete captures (h6), a generic struct field + concrete (h9).  Every one is called at two or
+/// three different types in one program: each instantiation needs its own copy of the lambda.
+const CLOSURES: &str = "fn h1{S}(x: T Tg) -> string {\n  let f = () -> Tg.{M}(x)\n  f()\n}\n\
+fn h2{S}(x: T Tg, p: string) -> string {\n  let f = () -> p\n  f() .. Tg.{M}(x)\n}\n\
+fn h3{S}(x: T Tg, p: string) -> string {\n  let f = () -> p .. Tg.{M}(x)\n  f()\n}\n\
+fn h4{S}(x: T Tg, p: string) -> string {\n  let f = () -> {\n    let g = () -> p .. Tg.{M}(x)\n    g()\n  }\n  f()\n}\n\
+fn h5{S}(x: T Tg, p: string) -> string {\n  let f = (y: T) -> p .. Tg.{M}(y)\n  f(x)\n}\n\
+fn h6{S}(x: T Tg, p: string) -> string {\n  let c: channel<string> = channel()\n  task {\n    c.write(p .. Tg.{M}(x))\n  }\n  c.read()\n}\n\
+fn h7{S}(x: T Tg, n: int) -> string {\n  let f = () -> {\n    if n > 0 {\n      Tg.{M}(x)\n    } else {\n      \"none\"\n    }\n  }\n  f()\n}\n\
+fn h8{S}(x: T Tg, p: string) -> string {\n  let f = (y: T) -> p .. Tg.{M}(y) .. p\n  let g = () -> f(x)\n  g()\n}\n\
+fn h9{S}(b: Bx<T Tg>, p: string) -> string {\n  let f = () -> p .. Tg.{M}(b.inner)\n  f()\n}\n";
+
 /// implementations of the builtin interfaces for `Sc` (each prints a tag) and generic users of them
 const BUILTIN: &str = "type Sc = { v: int }\n\
 implement Equal for Sc {\n  fn equal(a, b) {\n    println(\"Equal.Sc.equal\")\n    a.v == b.v\n  }\n}\n\
@@ -153,6 +169,8 @@ fn gen_prog(rng: &mut Rng, idx: usize) -> Prog {
         impl_orders.push(ord);
     }
     src.push_str(GENERICS);
+    src.push_str(&CLOSURES.replace("{M}", "tag").replace("{S}", "t"));
+    src.push_str(&CLOSURES.replace("{M}", "alt").replace("{S}", "a"));
     let impls_term: String = chosen.iter().map(|&ci| uni[ci].impl_term).collect::<Vec<_>>().join(";");
     let impl_methods: String = impl_orders.iter().map(|o| format!("{}+{}", o[0], o[1])).collect::<Vec<_>>().join(";");
     let with_num = idx % 6 == 3;
@@ -200,7 +218,38 @@ fn gen_prog(rng: &mut Rng, idx: usize) -> Prog {
             prelude: false,
         });
     }
+    // closures in generic functions: each chosen form at 2-3 different implementations
     let mut q = ncalls;
+    let nclos = 3 + rng.below(3) as usize;
+    for _ in 0..nclos {
+        let form_no = 1 + rng.below(9) as usize;
+        let midx = rng.below(2) as usize;
+        let m = ["tag", "alt"][midx];
+        let sfx = ["t", "a"][midx];
+        let ninst = 2 + rng.below(2) as usize;
+        let start = rng.below(chosen.len() as u64) as usize;
+        for j in 0..ninst {
+            let k = (start + j) % chosen.len();
+            let c = &uni[chosen[k]];
+            let (term, val) = c.insts[rng.below(c.insts.len() as u64) as usize];
+            let (expr, sig, inst, callty) = match form_no {
+                1 => (format!("h1{sfx}({val})"), "F[p1>s]".to_string(), format!("F[{term}>s]"), "F[p1>s]"),
+                7 => (format!("h7{sfx}({val}, 1)"), "F[p1,i>s]".to_string(), format!("F[{term},i>s]"), "F[p1>s]"),
+                9 => (format!("h9{sfx}(Bx({val}), \"\")"), "F[N12[p1],s>s]".to_string(), format!("F[N12[{term}],s>s]"), "F[p1>s]"),
+                n => (format!("h{n}{sfx}({val}, \"\")"), "F[p1,s>s]".to_string(), format!("F[{term},s>s]"), "F[p1>s]"),
+            };
+            let form = ["", "closure-generic-capture", "closure-concrete-capture", "closure-mixed-capture", "closure-mixed-nested", "closure-typed-by-param", "task-mixed-capture", "closure-mixed-int", "closure-calls-closure", "closure-generic-struct"][form_no];
+            let req = format!("mono {sig} {inst} F[p0>s] {callty} {impls_term} tag+alt {impl_methods} {midx} #{form}:{}", c.name);
+            cases.push(Case {
+                req,
+                expr: format!("println(\"#{q}\")\nprintln({expr})\n"),
+                expect: format!("impl={k} method={m}"),
+                what: format!("{form} call `{expr}` on {} (implementation {k} declares {:?})", c.name, impl_orders[k]),
+                prelude: false,
+            });
+            q += 1;
+        }
+    }
     if with_builtin || with_num {
         for b in builtin_cases(with_num) {
             // model: implementations [int, float, string, Sc]; the user type is N20[]
@@ -326,6 +375,7 @@ fn main() {
                 segs.entry(c).or_default().push(line.to_string());
             }
         }
+        let mut shown = false;
         for (q, c) in p.cases.iter().enumerate() {
             let lines = segs.get(&q).cloned().unwrap_or_default();
             let imp = observe(&lines, c);
@@ -338,7 +388,10 @@ fn main() {
                 continue;
             }
             if imp != c.expect {
-                ctx.spec_fail(format!("{}: ran `{imp}` (output {:?}), the implementation declared for the type is `{}`", c.what, lines, c.expect));
+                // the whole program goes with the first failure of a program
+                let prog = if shown { String::new() } else { format!("\nprogram:\n{}", p.src) };
+                shown = true;
+                ctx.spec_fail(format!("{}: ran `{imp}` (output {:?}), the implementation declared for the type is `{}`{prog}", c.what, lines, c.expect));
             }
             ctx.case(c.req.clone(), imp);
         }
